@@ -294,9 +294,23 @@ pub open spec fn opt_skip(o: Option<&Opts>) -> bool { match o { Some(x) => x.ski
 			r.consumed().len() + r.rest().len() <= r0.len(), r0.len() <= 0x7fff_0000,
 			state.split_accumulator.actual_size <= r.consumed().len(),
 			state.bytes_read <= r.consumed().len() + 0xffff_ffff,
-			state.game.hash is None,
-		ensures r.inv(), !r.hit_eof(),
+			state.game.hash is None, state.game.quirks is None,
+		ensures r.inv(), !r.hit_eof(), state.game.quirks is None,
 		decreases r.rest().len(),
+//@before if parse_event(
+		// the event loop never starts an event at or beyond the declared end of the raw element (a length of 0 = in progress)
+		proof { assert(raw_len == 0 || state.bytes_read < raw_len) /*[C01.no_event_parsed_beyond_the_raw_element]*/; }
+//@before if state.bytes_read < raw_len
+	let ghost pre_tail = state;
+	let ghost rest_tail = r.rest();
+//@afterblock if state.bytes_read < raw_len
+	proof {
+		// C01 / C17 (duplicated Game End): the quirk is recorded exactly when what the raw element still holds after the event loop is
+		// one more Game End event of this version's size - and then nothing else of the parsed game changes
+		let dup = pre_tail.bytes_read < raw_len && raw_len - pre_tail.bytes_read == 1 + game::End::size_spec(ver(&pre_tail)) && rest_tail[0] == 0x39u8;
+		assert(state.game.quirks == (if dup { Some(Quirks { double_game_end: true }) } else { None::<Quirks> })) /*[C01.duplicate_game_end_recorded_exactly]*/;
+		assert(state.game.frames == pre_tail.game.frames && state.game.end == pre_tail.game.end && state.game.start == pre_tail.game.start && state.game.gecko_codes == pre_tail.game.gecko_codes) /*[C01.tail_content_changes_nothing_else]*/;
+	}
 //@before if state.game.start.slippi.version.lt(
 	let ghost pre_close = state;
 //@afterblock if state.game.start.slippi.version.lt(
